@@ -69,6 +69,14 @@ def composition(rng, total, parts, allow_zero):
 
 def rand_row(rng, d, mode="exact"):
     """-> list of Fractions.  exact: sums to 1; near: |1-sum| <= 0.0005; far: |1-sum| >= 0.002"""
+    if mode == "exact" and d >= 2 and rng.random() < 0.12:
+        # bnlearn-style tiny entry (below 1e-4, seven significant digits) at a non-last position
+        T = 10 ** 11
+        tiny = rng.randint(1000001, 9999999)
+        rest = composition(rng, T - tiny, d - 1, False)
+        pos = rng.randrange(d - 1)
+        vals = rest[:pos] + [tiny] + rest[pos:]
+        return [Fraction(v, T) for v in vals]
     if mode == "exact":
         T = rng.choice([2, 4, 5, 8, 10, 10, 20, 100, 100, 1000])
         if T < d and rng.random() < 0.8:
